@@ -54,6 +54,9 @@ type lkEp struct {
 	gates   map[string]chan struct{} // "<conn>:<key index>" -> gate that holds that connection's delkey of that key
 	gated   map[int]int              // conn -> goroutines waiting at a gate
 	lastVal map[int]string // connection id -> value of its last successful acquire/force script
+	waitL   map[int]int // Locker index -> pending WithContext calls
+	skip    bool        // the episode ended early (a scheduler-dependent known finding struck): ignore ops until reset
+	atHook  int    // goroutines of the real code currently held inside a hook/gate of the harness
 	failAcq string // one injected failure of the next acquire script on this key
 	dead    bool
 }
@@ -132,7 +135,7 @@ func (e *lkEp) state(c *Ctx, line string) string {
 		}
 	}
 	if live == 0 && e.waiting > 0 && held == 0 {
-		c.Fail("lock:lost-wakeup:waiter-parked-on-free-lock", line, fmt.Sprintf("%d WithContext caller(s) stay parked although every key of the lock is free and nobody holds it", e.waiting))
+		c.Fail("lock:lost-wakeup:waiter-parked-on-free-lock", line, fmt.Sprintf("%d WithContext caller(s) stay parked although every key of the lock is free and nobody holds it; last server calls:%s", e.waiting, e.logTail(14)))
 	}
 	if !maj {
 		c.Fail("lock:loss-not-noticed", line, "a lock context is still live although its holder owns fewer than KeyMajority keys and every goroutine is at rest")
@@ -156,6 +159,9 @@ func (e *lkEp) op(c *Ctx, line string) {
 		return // the real code hung earlier in this run: nothing after that is meaningful
 	}
 	w := strings.Fields(line)
+	if e.skip && w[0] != "reset" {
+		return
+	}
 	emit := func() {
 		if !settle() {
 			e.dead = true
@@ -163,6 +169,7 @@ func (e *lkEp) op(c *Ctx, line string) {
 			return
 		}
 		c.Emit(line, e.state(c, line), true)
+		e.orphans(c, line)
 	}
 	bg := context.Background()
 	switch w[0] {
@@ -172,6 +179,7 @@ func (e *lkEp) op(c *Ctx, line string) {
 		e.n = 2*e.m - 1
 		e.srv = newFakeServer(func() int64 { return time.Now().UnixMilli() })
 		e.admin = newFakeClient(e.srv, 99, rueidis.ClientOption{})
+		e.waitL, e.skip = map[int]int{}, false
 		e.lockers, e.holders, e.waiting, e.cancels, e.dirty, e.early, e.failKey, e.failAcq = map[int]rueidislock.Locker{}, nil, 0, nil, false, nil, "", ""
 		e.srv.failCmd = func(cmd []string) string {
 			// one injected failure of the extend script on e.failKey
@@ -298,7 +306,7 @@ func (e *lkEp) op(c *Ctx, line string) {
 			}
 		}) {
 			e.dead = true
-			c.Emit(line, "hang", true)
+			c.Emit(line, e.stuckVerdict(), true)
 			return
 		}
 		if err == nil {
@@ -319,12 +327,28 @@ func (e *lkEp) op(c *Ctx, line string) {
 			want[e.key(j)] = true
 		}
 		reached, resume := make(chan string), make(chan struct{})
+		var hmu sync.Mutex
+		armed := true
 		e.srv.afterReply = func(cl *fakeClient, cmd []string, r reply) {
-			if cl == fc && len(cmd) > 3 && strings.HasPrefix(strings.ToUpper(cmd[0]), "EVAL") && want[cmd[3]] && r.typ == '+' &&
-				(acqShas[cmd[1]] || strings.HasPrefix(cmd[1], "local r = redis.call(\"SET\"")) {
+			if cl != fc || len(cmd) <= 3 || !strings.HasPrefix(strings.ToUpper(cmd[0]), "EVAL") || r.typ != '+' ||
+				!(acqShas[cmd[1]] || strings.HasPrefix(cmd[1], "local r = redis.call(\"SET\"")) {
+				return
+			}
+			hmu.Lock()
+			hit := armed && want[cmd[3]]
+			if hit {
 				delete(want, cmd[3])
+			}
+			hmu.Unlock()
+			if hit {
+				e.gmu.Lock()
+				e.atHook++
+				e.gmu.Unlock()
 				reached <- cmd[3]
 				<-resume
+				e.gmu.Lock()
+				e.atHook--
+				e.gmu.Unlock()
 			}
 		}
 		var ctx context.Context
@@ -335,9 +359,14 @@ func (e *lkEp) op(c *Ctx, line string) {
 			ctx, cancel, err = l.TryWithContext(bg, e.name)
 			close(ret)
 		}()
-		hung := false
-	loop:
-		for {
+		// TryWithContext returns as soon as it has its majority; the remaining keys are acquired by a goroutine
+		// of try(): keep serving the reply hook until everything is at rest and no acquire reply is waiting
+		returned, verdict := false, ""
+		for verdict == "" {
+			if !settle() {
+				verdict = "not-quiescent"
+				break
+			}
 			select {
 			case k := <-reached:
 				e.srv.mu.Lock()
@@ -348,17 +377,27 @@ func (e *lkEp) op(c *Ctx, line string) {
 				e.srv.mu.Unlock()
 				e.srv.flush()
 				resume <- struct{}{}
+				continue
+			default:
+			}
+			select {
 			case <-ret:
-				break loop
-			case <-time.After(15 * time.Second):
-				hung = true
-				break loop
+				returned = true
+			default:
+			}
+			if returned {
+				verdict = "done"
+			} else {
+				verdict = "hang" // at rest, nobody at the hook, and TryWithContext has not returned: the real code is stuck
 			}
 		}
+		hmu.Lock()
+		armed = false // a reply that comes later (a key that was not attempted in this call) passes through
+		hmu.Unlock()
 		e.srv.afterReply = nil
-		if hung {
+		if verdict != "done" {
 			e.dead = true
-			c.Emit(line, "hang", true)
+			c.Emit(line, verdict, true)
 			return
 		}
 		if err == nil {
@@ -373,6 +412,7 @@ func (e *lkEp) op(c *Ctx, line string) {
 		e.cancels = append(e.cancels, stop)
 		e.mu.Lock()
 		e.waiting++
+		e.waitL[conn-1]++
 		e.mu.Unlock()
 		go func() {
 			ctx, cancel, err := l.WithContext(src, e.name)
@@ -381,6 +421,7 @@ func (e *lkEp) op(c *Ctx, line string) {
 			}
 			e.mu.Lock()
 			e.waiting--
+			e.waitL[conn-1]--
 			e.mu.Unlock()
 		}()
 		c.Hit("with")
@@ -401,7 +442,7 @@ func (e *lkEp) op(c *Ctx, line string) {
 		}
 		if !watchdog(h.cancel) {
 			e.dead = true
-			c.Emit(line, "hang", true)
+			c.Emit(line, e.stuckVerdict(), true)
 			return
 		}
 		c.Hit("release")
@@ -558,6 +599,68 @@ func watchdog(f func()) bool {
 var acqShas = map[string]bool{
 	"3875d208d9e377969d2022550302cc83ad17b584": true, "fa3d1aaa7e4145457755016a3d5daf72fa7a11bf": true,
 	"c10e8119872659b926e8e28002d9b7fccbf15617": true, "4384ed08baff4dd7071b6c78c516a2fded4ee3e7": true,
+}
+
+// orphans: a WithContext caller is pending on Locker L but L has no gate registered under the lock name any
+// more, so no invalidation can wake it (known finding, scheduler dependent: the monitor goroutine of the
+// caller's failed attempt ran before try() counted the failure and released the gate as if the lock had been
+// held). The episode ends here: what follows would depend on that accident.
+func (e *lkEp) orphans(c *Ctx, line string) {
+	e.mu.Lock()
+	var ls []int
+	for l, n := range e.waitL {
+		if n > 0 {
+			ls = append(ls, l)
+		}
+	}
+	e.mu.Unlock()
+	for _, l := range ls {
+		lk := e.lockers[l]
+		if lk == nil {
+			continue
+		}
+		if reg, _ := rueidislock.VerifGateUsers(lk, e.name); !reg {
+			c.Fail("lock:waiter-orphaned:failed-attempt-monitor-before-failure-count", line,
+				fmt.Sprintf("a WithContext caller of Locker %d is parked but the Locker has no gate registered under the lock name: onInvalidations cannot wake it", l))
+			e.skip = true
+		}
+	}
+}
+
+// logTail: the last n server calls (caller holds srv.mu): connection, script/command, key, reply
+func (e *lkEp) logTail(n int) string {
+	l := e.srv.log
+	if len(l) > n {
+		l = l[len(l)-n:]
+	}
+	var b strings.Builder
+	for _, x := range l {
+		id := 0
+		if x.cl != nil {
+			id = x.cl.id
+		}
+		k := ""
+		if len(x.keys) > 0 {
+			k = x.keys[0]
+		}
+		fmt.Fprintf(&b, " [c%d %s %s %s]", id, x.name, k, x.rep.String())
+	}
+	return b.String()
+}
+
+// stuckVerdict: a call of the real code did not return. If the harness itself still holds one of its goroutines
+// at a gate or reply hook the harness is to blame ("harness-gate-armed"), otherwise the real code hangs.
+func (e *lkEp) stuckVerdict() string {
+	e.gmu.Lock()
+	n := e.atHook
+	for _, k := range e.gated {
+		n += k
+	}
+	e.gmu.Unlock()
+	if n > 0 {
+		return "harness-gate-armed"
+	}
+	return "hang"
 }
 
 func (e *lkEp) sibState() string {
